@@ -18,6 +18,7 @@ ASSUMPTIONS = ["the nonce is the RFC 6979 sec. 3.2 HMAC-DRBG over the key and ha
                "(= strict RFC 6979 for 32-byte hashes below N, which is asserted separately)",
                "x(kG) >= N and k outside [1,N-1] have probability ~2^-128 and are not generated"]
 ENGINE = "hypothesis"
+TECHNIQUE = ("property-based testing (Hypothesis) against an independent ECDSA / RFC 6979 model (and OpenSSL where importable)")
 REQUIRED_LABELS = {t: ["flip:taken", "flip:not_taken", "hash:>=N", "hash:len!=32", "v=27", "v=28",
                        "strict_rfc6979_agrees"] for t in ("quick", "thorough")}
 N, P = params.SECP_N, params.SECP_P
